@@ -135,6 +135,9 @@ def run_hashvars(item, res):
                             model, note=f"{op[0]} of a '{f}' hash-map "
                             f"variable (step {i})")
                         res.outcomes.add(("hv", op[0], out, ok))
+                    if length == 3 and seq[0][0] != seq[1][0]:
+                        res.sample(dict(cj, overruns=list(sk.overruns)),
+                                   limit=4)
                     res.count("map_syscalls", sum(
                         1 for c, _ in sk.calls if c in (1, 2, 3, 4, 21)))
                     if any(c in (1, 2, 3, 4, 21) for c, _ in sk.calls):
